@@ -88,6 +88,8 @@ def instances(tier, seed):
                     opts += [{'in_bits': 4 if b == 8 else 8}]
                     if b == 8 and net == 'C':
                         opts += [{'scale_bit': 16}, {'scale_bit': 12}]
+                if not kw and net in ('C', 'L') and b == 8:
+                    opts += [{'restored': True}]
                 for o in opts:
                     out.append({'id': f'{be}:{net}{kw}:bits={b}:{o}', 'what': 'net', 'backend': be, 'net': net, 'kw': kw, 'bits': b, 'opts': o, 'wseed': seed})
     for be in ('MATCH', 'MAUPITI'):
@@ -97,10 +99,10 @@ def instances(tier, seed):
 
 
 # ---------------------------------------------------------------------------------------------------------------------
-def _build(net, kw, bits, backend, opts, wseed=0):
+def _export(net, kw, bits, opts, wseed=0):
+    """-> (exported fake-quantised network after one forward pass, input shape, the batch it was run on)"""
     from plinio.methods import MPS
     from plinio.methods.mps import get_default_qinfo
-    from plinio.methods.mps.quant.backends import Backend, integerize_arch
     torch.manual_seed(wseed)
     kw = dict(kw)
     for k in ('dil', 'k'):
@@ -116,9 +118,8 @@ def _build(net, kw, bits, backend, opts, wseed=0):
                 vals = np.array([9.0, 0.125, 30.0, -0.25][:p.numel()] + [0.5] * max(0, p.numel() - 4), dtype='float32')
             p.copy_(torch.tensor(vals).reshape(p.shape))
     shape = (3,) if net == 'L' else (1, 3, 3)
-    opts = dict(opts)
     qinfo = get_default_qinfo((bits,), (bits,))
-    in_bits = opts.pop('in_bits', None)
+    in_bits = opts.get('in_bits')
     if in_bits:
         # mixed activation precisions: the network input is quantised at another bit-width than the layers' outputs
         qinfo['input_default']['search_precision'] = (in_bits,)
@@ -128,6 +129,25 @@ def _build(net, kw, bits, backend, opts, wseed=0):
     m(x0)
     e = m.export().eval()
     e(x0)
+    return e, shape, x0
+
+
+def _build(net, kw, bits, backend, opts, wseed=0):
+    from plinio.methods.mps.quant.backends import Backend, integerize_arch
+    opts = dict(opts)
+    e, shape, x0 = _export(net, kw, bits, opts, wseed)
+    opts.pop('in_bits', None)
+    if opts.pop('restored', False):
+        # a checkpoint of the same architecture with other weights / clipping values is loaded into the exported network and the
+        # network is integerised straight away: everything the integer layers store must come from the loaded state, not from
+        # values cached by the last fake-quantised forward pass
+        e2, _, _ = _export(net, kw, bits, opts, wseed + 11)
+        with torch.no_grad():
+            for mod in e2.modules():
+                cv = getattr(mod, 'clip_val', None)
+                if isinstance(cv, torch.Tensor):
+                    cv.mul_(1.5)
+        e.load_state_dict(e2.state_dict())
     be = Backend.MATCH if backend == 'MATCH' else Backend.MAUPITI
     i = integerize_arch(copy.deepcopy(e), be, backend_kwargs=dict(opts))
     return e, i, shape
